@@ -173,3 +173,19 @@ def attached_shape(rng):
     b = box(rng.range(1, 6), rng.range(1, 3), corners=".." + "''").split("\n")
     b[-1] = b[-1] + rng.choice(["--", "---->", "-."])
     return "\n".join(b)
+
+
+def nested_boxes(levels, corners="++++"):
+    """boxes inside boxes: levels = list of rows of text to put under the inner box at each level, outermost first;
+    the innermost level holds only its rows. Returns the drawing."""
+    art = None
+    for rows in reversed(levels):
+        if art is None:
+            w = max([len(r) for r in rows] + [1]) + 2
+            art = box(w, max(1, len(rows)), corners=corners, inner=[" " + r for r in rows])
+        else:
+            inner = art.split("\n")
+            w = max([len(x) for x in inner] + [len(r) + 1 for r in rows]) + 4
+            body = [""] + ["  " + x for x in inner] + [" " + r for r in rows] + [""]
+            art = box(w, len(body), corners=corners, inner=body)
+    return art
